@@ -19,7 +19,7 @@ EXPLANATION = (
     "partitioner, NUMA hints, the shared low-priority queue.")
 ASSUMPTIONS = ["thread_pool_base::create_work is implemented by scheduled_thread_pool only", "hints are honoured by the queue selection decided in C01.R7/C19.R4"]
 THOROUGH_CONFIGS = [["-UNDEBUG", "-DPIKA_DEBUG"]]
-FLOORS = {"C10.R1": 2, "C10.R2": 5, "C10.R3": 4, "C10.R4": 8, "C10.R5": 8, "C10.R6": 4, "C10.R7": 1}
+FLOORS = {"C10.R1": 2, "C10.R2": 5, "C10.R3": 4, "C10.R4": 8, "C10.R5": 8, "C10.R6": 4, "C10.R7": 1, "C10.R8": 4}
 
 SETV = "pika::execution::experimental::set_value"
 SETE = "pika::execution::experimental::set_error"
@@ -58,6 +58,11 @@ def run(rep, tier):
     rep.rule("C10.R3", "K6: schedule_from completes downstream with values only from scheduler_sender_receiver::set_value")
     rep.rule("C10.R4", "K7/K6: static policies mask stealing; cross-queue access only under enable_stealing")
     rep.rule("C10.R6", "K6 (who may advertise a completion scheduler): a sender adaptor forwards its predecessor's environment unchanged only if its receiver completes downstream inside the predecessor's completion; an adaptor whose completion members start another operation (let_value, let_error: the operation returned by the user's callable; schedule_from: the scheduler's) completes wherever that operation completes and must not advertise the predecessor's completion scheduler (bulk's pool customisation trusts it)")
+    rep.rule("C10.R8", "K8/K6 (wake-ups keep the worker): every call in the threading layer that makes an existing task pending again - "
+             "set_thread_state(id, pending, .., hint, ..) in thread_helpers.cpp / set_thread_state.cpp / execution_agent.cpp and the final "
+             "scheduler->schedule_thread(thrd, hint) - passes the hint it was given or one built from the worker recorded in that task "
+             "(get_last_worker_thread_num()); an empty hint or the *caller's* worker number re-queues a hinted task of a static pool on "
+             "another worker")
     rep.rule("C10.R5", "K8/K2: scheduling_loop re-queues with thread_schedule_hint(num_thread) and records the worker in the task before entering its body; resume paths take their hint from it")
 
     D = facts(rep, driver("c10_exec.cpp"), [r"thread_pool_scheduler::operation_state::start$", r"std_thread_scheduler::operation_state::start$",
@@ -435,6 +440,14 @@ def run(rep, tier):
                     "(e.g. the runtime-global worker number, which differs from the local one in every pool but the first) re-queues a resumed, hinted task on another worker of a static pool"
                     % (f.qname.rsplit("::", 1)[-1], T(a)))
 
+    # ---- R8: wake-ups keep the worker.  A suspended task is put back on a queue by set_thread_state(id, pending, .., hint, ..)
+    # -> scheduler->schedule_thread(thrd, hint); with an empty hint the queue schedulers pick a queue round robin.  Under a
+    # static policy nobody steals, so every wake-up entry point of the threading layer has to name the worker recorded in
+    # the task (get_last_worker_thread_num(): the scheduling loop stores it before the body runs, R5) or forward the hint
+    # it was given.  set_thread_state_timed.cpp is not covered: timed suspension is not supported by this version
+    # (at_timer throws before a timer is armed).
+    resume_hint_rules(rep)
+
     # ---- R7: under a static policy every worker owns a high-priority queue.  The priority schedulers re-queue a task
     # that yields with boosted priority (yield_k / pending_boost - normal-priority tasks included) on high-priority queue
     # (worker % number of high-priority queues) and only the first that many workers poll one: with fewer queues than
@@ -510,3 +523,49 @@ def run(rep, tier):
     if n6 < 4:
         raise AnalysisBroken("C10.R6: only %d environment-forwarding senders found" % n6)
 
+
+
+def resume_hint_rules(rep):
+    from engine.kinds import expand_locals
+    from engine.core import subexprs
+    n = 0
+    for mod, rel in (("threading_base", "src/thread_helpers.cpp"), ("threading_base", "src/set_thread_state.cpp"),
+                     ("threading_base", "src/execution_agent.cpp")):
+        Fx = facts(rep, lib(mod, rel), [r"^pika::threads::detail::", r"^pika::"])
+        for f in Fx.fns:
+            if not f.file.endswith(rel.rsplit("/", 1)[-1]):
+                continue
+            hint_params = set(p_["name"] for p_ in f.params if "thread_schedule_hint" in str(p_.get("type", "")))
+            for b, i, ev in f.all_events():
+                if ev.get("k") != "call":
+                    continue
+                args = ev.get("args") or []
+                hint = None
+                what = None
+                pt = ev.get("ptypes") or []
+                hp = [k_ for k_, t_ in enumerate(pt) if "thread_schedule_hint" in str(t_)]
+                if callee_of(ev) == "pika::threads::detail::set_thread_state" and len(hp) == 1 and hp[0] < len(args) and \
+                        not any("time_point" in str(t_) for t_ in pt):
+                    hint, what = args[hp[0]], "set_thread_state(%s, %s, ..)" % (T(args[0]), T(args[1]))
+                elif callee_short(ev) in ("schedule_thread", "schedule_thread_last") and len(args) >= 2 and ev.get("recv") is not None and \
+                        rel.endswith("set_thread_state.cpp"):
+                    hint, what = args[1], "%s(%s, ..)" % (callee_short(ev), T(args[0]))
+                if hint is None:
+                    continue
+                n += 1
+                h0 = strip(hint)
+                hx = expand_locals(f, hint)
+                forwarded = h0.get("k") == "var" and h0.get("name") in hint_params
+                calls = [callee_short(c_) for c_ in subexprs(hx, lambda y: isinstance(y, dict) and y.get("k") == "call")]
+                from_task = "get_last_worker_thread_num" in calls
+                if forwarded:
+                    rep.ok("C10.R8", f, "%s at %s forwards the hint it was given" % (what, loc_of(ev)))
+                elif from_task:
+                    rep.ok("C10.R8", f, "%s at %s names the worker recorded in the task" % (what, loc_of(ev)))
+                else:
+                    rep.bad("C10.R8", f, loc_of(ev), "resume-hint:" + f.qname.rsplit("::", 1)[-1], "%s in %s re-queues an existing task with the hint %s, which is "
+                            "neither the hint the caller supplied nor the worker recorded in the task (get_last_worker_thread_num()): a task that "
+                            "was given a worker hint on a static (non-stealing) pool runs its next phase on whatever queue the scheduler picks"
+                            % (what, f.qname, T(hint)))
+    if n < 3:
+        raise AnalysisBroken("C10.R8: wake-up sites not found (%d)" % n)
